@@ -638,6 +638,15 @@ def history_case(hist, recs, runs, readback, parts=None):
     return body
 
 
+def model_final_text(ctx, m):
+    """the model's database after close for a history, as Coq prints it (diagnostic text for a replay)"""
+    v = ctx.work / "c18_model_final.v"
+    v.write_text(HEADER + "Eval vm_compute in (" + cdesc_defs(m["hist"]) + "\n let h := " + cevents(m["recs"]) +
+                 " in\n match final_db C 1%N h with Ok ts => inl (observe ts) | Err e => inr e end).\n")
+    rc, out = core.coqc_file(v, timeout=120)
+    return out
+
+
 PARTS = ["spec", "domain", "read"] + ["%s%d" % (p, b) for b in BATCHES for p in ("trace", "gentrace", "final")]
 
 
@@ -700,11 +709,63 @@ OUTSIDE = [
 ]
 
 
+def prune_descs(hist):
+    used = sorted({ev["d"] for ev in hist["events"] if ev != FLUSH})
+    remap = {d: i for i, d in enumerate(used)}
+    return {"descs": [hist["descs"][d] for d in used],
+            "events": [ev if ev == FLUSH else {"d": remap[ev["d"]], "v": ev["v"]} for ev in hist["events"]]}
+
+
+def shrink(work, hist, budget=150):
+    """greedy removal of events (then of field values) while the property still fails on the implementation"""
+    def fails(h):
+        if case_collision(h):
+            return False
+        try:
+            recs, runs, readback = run_history(work, h, "shrink")
+            return impl_verdict(h, recs, runs, readback)[0] is not None
+        except Exception:  # noqa
+            return False
+    cur = hist
+    changed = True
+    while changed and budget > 0:
+        changed = False
+        for i in range(len(cur["events"]) - 1, -1, -1):
+            if budget <= 0:
+                break
+            cand = {"descs": cur["descs"], "events": cur["events"][:i] + cur["events"][i + 1:]}
+            budget -= 1
+            if cand["events"] and fails(cand):
+                cur, changed = cand, True
+    cur = prune_descs(cur)
+    for i, ev in enumerate(cur["events"]):            # unset field values that do not matter
+        if ev == FLUSH:
+            continue
+        for f in list(ev["v"]):
+            if budget <= 0 or ev["v"][f] == {"t": "n"}:
+                continue
+            cand = json.loads(json.dumps(cur))
+            cand["events"][i]["v"][f] = {"t": "n"}
+            budget -= 1
+            if fails(cand):
+                cur = cand
+    return cur
+
+
 def report_failure(ctx, kf, hist, recs, runs, readback, why, batch, kind, extra=None):
     coll = case_collision(hist)
     if coll and kf:
         ctx.known_finding(kf[0]["id"], kf[0]["what"])
         return False
+    if kind == "history":
+        small = shrink(ctx.work, hist)
+        if small != hist:
+            recs, runs, readback = run_history(ctx.work, small, "shrunk")
+            why2, b2 = impl_verdict(small, recs, runs, readback)
+            if why2:
+                extra = dict(extra or {}, original_history=hist)
+                hist, batch = small, b2
+                why = (why.split("; failing input: ")[0] + "; failing input: " + why2) if "; failing input: " in why else why2
     obj = dict(kind=kind, history=hist, batch=batch, what_fails=why,
                observed={str(b): dict(obs=runs[b]["obs"], error=runs[b]["error"]) for b in BATCHES},
                expected_visible_prefix={str(b): spec_last_commit(recs, b) for b in BATCHES})
@@ -819,7 +880,8 @@ def run(ctx):
     ctx.coverage["events_total"] = sum(len(m["hist"]["events"]) for m in metas)
     ctx.coverage["observations_through_second_connection"] = sum(len(m["runs"][b]["obs"]) + 1 for m in metas for b in BATCHES)
     if failing:
-        m = metas[failing[0]]
+        gen_failing = [i for i in failing if i >= n_fixed]
+        m = metas[(gen_failing or failing)[0]]
         # which sub-check?
         sub = [history_case(m["hist"], m["recs"], m["runs"], m["readback"], parts=[p]) for p in PARTS]
         f2, err2 = core.eval_bool_cases(ctx, HEADER, sub, shard_size=4, name="c18diag")
@@ -828,7 +890,8 @@ def run(ctx):
             len(failing), len(cases), m["label"], bad_parts)
         report_failure(ctx, [], m["hist"], m["recs"], m["runs"], m["readback"], why, None, "correspondence",
                        dict(correspondence="C18 histories vs model/Sqlite.v", failing_subchecks=bad_parts,
-                            final={str(BATCHES[0]): repr(m["runs"][BATCHES[0]]["final"])[:4000]}))
+                            implementation_final={str(BATCHES[0]): repr(m["runs"][BATCHES[0]]["final"])[:6000]},
+                            model_final=model_final_text(ctx, m)[:6000]))
 
 
 # ------------------------------------------------------------------------------------------
@@ -850,8 +913,9 @@ def replay(obj):
         recs, runs, readback = run_history(c.work, hist, "r")
         why, b = impl_verdict(hist, recs, runs, readback)
         for bb in BATCHES:
-            print("batch %4d: visible rows after each event %s  expected prefix lengths %s" % (
-                bb, [sum(x for _, x in o[1]) if o[0] == "c" else o[1] for o in runs[bb]["obs"]], spec_last_commit(recs, bb)))
+            print("batch %4d: rows visible to another connection after each event %s  expected %s" % (
+                bb, [sum(x for _, x in o[1]) if o[0] == "c" else o[1] for o in runs[bb]["obs"]],
+                [sum(counts_of(recs[:lc]).values()) for lc in spec_last_commit(recs, bb)]))
         if why:
             print("replay: property FAILS: %s (batch size %s)" % (why, b))
             return 1
